@@ -22,6 +22,8 @@ import (
 //                        Restore is dropped by the publisher and closes nothing)
 //  events-do-not-match-state-change
 //                        a committed batch, applied to the previous query results, does not give the new ones
+//  ready-item-not-delivered
+//                        a deliverable item (not older than the snapshot) is reachable but Next waits
 //  (+ protocol sanity: framing, request index, publish-one)
 //
 // Every failure carries a cause computed from the observations; "unknown" unless it is one of the
@@ -346,6 +348,9 @@ func oracle(steps []Step, drained bool) []Failure {
 					// resumed (no snapshot, no reset) although its view was built from a replaced store
 					c.taint = "restore-keeps-topic-buffer"
 				}
+				continue
+			case "stuck":
+				fail(st.C, "ready-item-not-delivered", "unknown", "an item that Next should deliver is reachable but Next waited instead")
 				continue
 			case "unsub", "nosub", "filtered":
 				continue
